@@ -191,47 +191,109 @@ def _r1_batch(ck, R1):
               "not added to the caller's dependencies)", br.where(s.anchor))
 
 
-def _frame_text(ck, rl, pushes):
-    pushed = {rl.xnorm(p.args[0], rl.nodes(p)[0]) for p in pushes if p.args and rl.nodes(p)}
-    ck.need(len(pushed) == 1, "memento_run_local: push_frame is not called with one identifiable frame")
-    return pushed.pop()
+class FrameScope:
+    """Where memento_run_local keeps its frame on the stack.  Plain form: push_frame / pop_frame in the function
+    itself (a try/finally).  Scoped form: `with C(...)` on a class of the same module whose __enter__ pushes a frame
+    it was given and whose __exit__ pops — the `with` statement then guarantees that __exit__ runs on every way out
+    of the block once __enter__ returned, so the exit-time obligations are decided on __exit__ (and the entry-time
+    ones on __enter__), with the class's fields read as the constructor arguments they were bound to."""
+
+    def __init__(self, ck, rl):
+        self.rl = rl
+        self.ck = ck
+        self.scoped = False
+        self.sub = {}
+        self.fa = rl         # the function that pops and propagates
+        self.enter = None
+        self.with_stmt = None
+        self.pushes = rl.calls("push_frame")
+        if self.pushes:
+            self.pops = rl.calls("pop_frame")  # none at all: reported by R2 (frame never popped)
+            self.starts = rl.nodes_all(self.pushes)
+            self.include_start = False
+            return
+        mod = rl.fi.qual.split(".")[0]
+        for w in rl.stmts(ast.With):
+            for it in w.items:
+                c = it.context_expr
+                if not (isinstance(c, ast.Call) and isinstance(c.func, ast.Name) and rl.nodes(w)):
+                    continue
+                fis = [ck.repo.try_func("%s.%s.%s" % (mod, c.func.id, m)) for m in ("__init__", "__enter__", "__exit__")]
+                if any(f is None for f in fis):
+                    continue
+                init, en, ex = (FA(ck, f) for f in fis)
+                if not en.calls("push_frame"):
+                    continue
+                # fields bound (once, unconditionally) to constructor parameters -> the actual arguments, in rl's terms
+                params = init.fi.params[1:]
+                for st in init.stmts(ast.Assign):
+                    if len(st.targets) == 1 and isinstance(st.targets[0], ast.Attribute) and A.dotted(st.targets[0].value) == "self" \
+                            and isinstance(st.value, ast.Name) and st.value.id in params and init.enclosing(st, (ast.If, ast.For, ast.While, ast.Try)) is None:
+                        actual = A.arg_or_kw(c, params.index(st.value.id), st.value.id)
+                        if actual is not None:
+                            self.sub["self." + st.targets[0].attr] = rl.xnorm(actual, rl.nodes(w)[0])
+                rebound = [t for f in (en, ex) for st in f.stmts((ast.Assign, ast.AugAssign)) for t in (st.targets if isinstance(st, ast.Assign) else [st.target])
+                           if isinstance(t, ast.Attribute) and ("self." + t.attr) in self.sub and A.dotted(t.value) == "self"]
+                ck.need(not rebound, "%s: rebinds the fields it was constructed with" % c.func.id)
+                self.scoped, self.fa, self.enter, self.with_stmt = True, ex, en, w
+                self.pushes = en.calls("push_frame")
+                self.pops = ex.calls("pop_frame")
+                self.starts = [ex.cfg.entry]
+                self.include_start = True
+                return
+        raise AnalysisError("%s: expected push_frame call, found none" % rl.qual)
+
+    def text(self, fa, e, at):
+        """Normalised expansion of `e`, in memento_run_local's terms."""
+        t = fa.xnorm(e, at)
+        if fa is not self.rl:
+            import re
+            for k in sorted(self.sub, key=len, reverse=True):
+                t = re.sub(r"(?<![\w.])" + re.escape(k) + r"(?![\w])", lambda m, k=k: self.sub[k], t)
+        return t
+
+    def pushed(self):
+        fa = self.enter if self.scoped else self.rl
+        pushed = {self.text(fa, p.args[0], fa.nodes(p)[0]) for p in self.pushes if p.args and fa.nodes(p)}
+        self.ck.need(len(pushed) == 1, "memento_run_local: push_frame is not called with one identifiable frame")
+        return pushed.pop()
 
 
 def _r1_run_local(ck, R1):
     rl = FA(ck, RL + ".memento_run_local")
-    pushes = rl.some(rl.calls("push_frame"), "push_frame call")
-    pops = rl.some(rl.calls("pop_frame"), "pop_frame call")
-    push_nodes = rl.nodes_all(pushes)
-    pop_nodes = rl.nodes_all(pops)
-    sites = prop_sites(rl)
-    PUSHED = _frame_text(ck, rl, pushes)
-    no_caller = absent_edges(rl, is_calling_frame(rl))
+    sc = FrameScope(ck, rl)
+    fa = sc.fa
+    pop_nodes = fa.nodes_all(sc.pops)
+    sites = prop_sites(fa)
+    PUSHED = sc.pushed()
+    no_caller = absent_edges(fa, lambda e, n: sc.text(fa, e, n) == FRAME)
     edge_ok = not_edges(no_caller)
-    exits = [rl.cfg.exit, rl.cfg.raise_exit]
+    exits = [fa.cfg.exit, fa.cfg.raise_exit]
     bad = None
-    for p in push_nodes:
-        if _escapes(rl, [p], sites, (), edge_ok, exits, include_start=False) is not None:
+    for p in sc.starts:
+        if _escapes(fa, [p], sites, (), edge_ok, exits, include_start=sc.include_start) is not None:
             bad = p
-    ck.paths_enumerated += len(push_nodes)
+    ck.paths_enumerated += len(sc.starts)
     ck.ob(R1, rl.key(None, "exit-propagates"), bad is None and bool(sites),
           "every exit after the push propagates stack_frame.memento to the caller (if any)" if bad is None and sites else
           "memento_run_local can exit without propagating its memento to the calling frame", rl.where())
     lookups = {}
     for s in sites:
-        okc = _is_frame_memento(rl, s.caller, s.at) and s.result is not None and rl.xnorm(s.result, s.at) == PUSHED + ".memento" and all(s.parts)
+        okc = s.caller is not None and isinstance(s.caller, ast.Attribute) and s.caller.attr == "memento" and sc.text(fa, s.caller.value, s.at) == FRAME \
+            and s.result is not None and sc.text(fa, s.result, s.at) == PUSHED + ".memento" and all(s.parts)
         # pop precedes the propagation
-        okp = all(rl.cfg.must_pass(pop_nodes, i) for i in s.all_nodes())
-        ck.ob(R1, rl.key(s.anchor, "args"), okc and okp, "after the pop, stack_frame.memento is propagated into the new top frame" if okc and okp else
-              "propagation in memento_run_local does not pass (calling_frame.memento, stack_frame.memento) after the pop", rl.where(s.anchor))
+        okp = all(fa.cfg.must_pass(pop_nodes, i) for i in s.all_nodes())
+        ck.ob(R1, fa.key(s.anchor, "args"), okc and okp, "after the pop, stack_frame.memento is propagated into the new top frame" if okc and okp else
+              "propagation in memento_run_local does not pass (calling_frame.memento, stack_frame.memento) after the pop", fa.where(s.anchor))
         # the caller is looked up after the pop: every get_calling_frame() the caller memento is computed from
         if s.caller_src is not None:
             for i in s.part(0):
-                for (call, n) in feeding_calls(rl, s.caller_src, i, "get_calling_frame"):
+                for (call, n) in feeding_calls(fa, s.caller_src, i, "get_calling_frame"):
                     ent = lookups.setdefault(id(call), [call, True])
-                    ent[1] = ent[1] and rl.cfg.must_pass(pop_nodes, n)
+                    ent[1] = ent[1] and fa.cfg.must_pass(pop_nodes, n)
     for (call, okq) in lookups.values():
-        ck.ob(R1, rl.key(call, "lookup-after-pop"), okq, "the caller is looked up after the own frame was popped" if okq else
-              "the calling frame is looked up before the own frame is popped: the function would propagate into itself", rl.where(call))
+        ck.ob(R1, fa.key(call, "lookup-after-pop"), okq, "the caller is looked up after the own frame was popped" if okq else
+              "the calling frame is looked up before the own frame is popped: the function would propagate into itself", fa.where(call))
     # served path: the frame's memento is replaced by the stored memento before returning
     served = [r for r in rl.returns() if r.value is not None and rl.nodes(r) and "call:process_existing_memento" in rl.deps(r.value)]
     ck.need(served, "memento_run_local: no 'served from store' return found")
@@ -240,7 +302,7 @@ def _r1_run_local(ck, R1):
         lv = origins(rl, e, at)
         return bool(lv) and all(isinstance(x, ast.Call) and A.call_attr(x) == "get_memento" and A.norm(A.call_recv(x)) == "storage_backend" for (x, _n) in lv)
     asg = [s for s in rl.stmts(ast.Assign) if rl.nodes(s) and any(isinstance(t, ast.Attribute) and rl.xnorm(t, rl.nodes(s)[0]) == PUSHED + ".memento" for t in s.targets)
-           and stored(s.value, rl.nodes(s)[0])]
+           and stored(s.value, rl.nodes(s)[0]) and (sc.with_stmt is None or rl.inside(s, sc.with_stmt))]
     for r in served:
         oks = bool(asg) and all(rl.cfg.must_pass(rl.nodes_all(asg), i) for i in rl.nodes(r))
         ck.ob(R1, rl.key(None, "served-memento-replaces"), oks, "the stored memento (with its stored dependency set) is what propagates" if oks else
@@ -253,27 +315,47 @@ def _r1_run_local(ck, R1):
 
 def _r2(ck, R2):
     rl = FA(ck, RL + ".memento_run_local")
-    pushes = rl.some(rl.calls("push_frame"), "push_frame call")
-    pops = rl.some(rl.calls("pop_frame"), "pop_frame call")
-    push_nodes = rl.nodes_all(pushes)
-    pop_nodes = rl.nodes_all(pops)
-    exits = [rl.cfg.exit, rl.cfg.raise_exit]
-    okt = True
-    why = ""
-    for pc in pushes:
-        trys = [t for t in rl.stmts(ast.Try) if t.finalbody and any(rl.inside(pc, b) for b in t.body)]
-        has_pop = any(any(isinstance(n, ast.Call) and A.call_attr(n) == "pop_frame" for s in t.finalbody for n in A.walk_local(s)) for t in trys)
-        if not has_pop:
-            okt = False
-            why = "push_frame is not inside the try whose finally pops"
-    ck.ob(R2, rl.key(None, "push-in-try"), okt, "push is protected by try/finally-pop" if okt else why, rl.where(pushes[0]))
-    leak = None
-    for p in push_nodes:
-        r = rl.cfg.reach([p], removed=pop_nodes, include_start=False)
-        if set(exits) & r:
-            leak = p
-    # no pop without push
-    unp = [i for i in pop_nodes if not rl.cfg.must_pass(push_nodes, i)]
+    sc = FrameScope(ck, rl)
+    pushes = sc.pushes
+    if not sc.scoped:
+        push_nodes = rl.nodes_all(pushes)
+        pop_nodes = rl.nodes_all(sc.pops)
+        exits = [rl.cfg.exit, rl.cfg.raise_exit]
+        okt = True
+        why = ""
+        for pc in pushes:
+            trys = [t for t in rl.stmts(ast.Try) if t.finalbody and any(rl.inside(pc, b) for b in t.body)]
+            has_pop = any(any(isinstance(n, ast.Call) and A.call_attr(n) == "pop_frame" for s in t.finalbody for n in A.walk_local(s)) for t in trys)
+            if not has_pop:
+                okt = False
+                why = "push_frame is not inside the try whose finally pops"
+        ck.ob(R2, rl.key(None, "push-in-try"), okt, "push is protected by try/finally-pop" if okt else why, rl.where(pushes[0]))
+        leak = None
+        for p in push_nodes:
+            r = rl.cfg.reach([p], removed=pop_nodes, include_start=False)
+            if set(exits) & r:
+                leak = p
+        # no pop without push
+        unp = [i for i in pop_nodes if not rl.cfg.must_pass(push_nodes, i)]
+    else:
+        en, ex = sc.enter, sc.fa
+        push_nodes = en.nodes_all(pushes)
+        pop_nodes = ex.nodes_all(sc.pops)
+        # __enter__ returns only with the frame pushed (once); if it fails after the push, the frame is popped again
+        en_pops = en.nodes_all(en.calls("pop_frame"))
+        okt = bool(push_nodes) and en.cfg.must_pass(push_nodes, en.cfg.exit) \
+            and not any(set(push_nodes) & en.cfg.reach([p], include_start=False) for p in push_nodes) \
+            and not any(en.cfg.exit in en.cfg.reach([q], include_start=False) for q in en_pops)
+        ck.ob(R2, rl.key(None, "push-in-try"), okt, "the frame is pushed by the scope's __enter__, whose __exit__ the with statement guarantees" if okt else
+              "the scope's __enter__ can return without having pushed the frame exactly once", en.where())
+        leak = None
+        for p in push_nodes:
+            if en.cfg.raise_exit in en.cfg.reach([p], removed=en_pops, include_start=False):
+                leak = p
+        # __exit__ pops on every path, exactly once
+        if not (ex.cfg.must_pass(pop_nodes, ex.cfg.exit) and ex.cfg.must_pass(pop_nodes, ex.cfg.raise_exit)):
+            leak = ex.cfg.entry
+        unp = [i for i in pop_nodes if set(pop_nodes) & ex.cfg.reach([i], include_start=False)]
     ck.ob(R2, rl.key(None, "balanced"), leak is None and not unp,
           "every path after the push pops exactly the pushed frame; no pop without push" if leak is None and not unp else
           ("a path leaves memento_run_local with the frame still on the stack" if leak is not None else
@@ -284,9 +366,12 @@ def _r2(ck, R2):
     if oksf:
         ref = A.arg_or_kw(sf[0], 0, "fn_reference_with_args")
         oksf = ref is not None and rl.xnorm(ref, rl.nodes(sf[0])[0]) == "fn_reference_with_args"
-        for p in pushes:
-            lv = origins(rl, p.args[0], rl.nodes(p)[0]) if p.args and rl.nodes(p) else []
-            oksf = oksf and bool(lv) and all(x is sf[0] for (x, _n) in lv)
+        if sc.scoped:
+            oksf = oksf and sc.pushed() == rl.xnorm(sf[0], rl.nodes(sf[0])[0])
+        else:
+            for p in pushes:
+                lv = origins(rl, p.args[0], rl.nodes(p)[0]) if p.args and rl.nodes(p) else []
+                oksf = oksf and bool(lv) and all(x is sf[0] for (x, _n) in lv)
     ck.ob(R2, rl.key(None, "frame-identity"), oksf, "the pushed frame is the frame of this invocation" if oksf else
           "the pushed frame is not the StackFrame built for this invocation", rl.where())
 
